@@ -14,9 +14,11 @@ for l in sys.stdin:
     if d.get("Action")=="pass" and d.get("Test"): ok.add(d["Package"]+"::"+d["Test"])
 print("\n".join(sorted(ok)))'; }
 [ -f $BASE ] || passset > $BASE
-CMD=$(python3 -c 'import json,sys; print(json.load(open(sys.argv[1]))["demo_cmd"])' "$S/meta.json")
+CMD=$(python3 -c 'import json,sys; print(json.load(open(sys.argv[1]))["demo_cmd"].replace("<repo root>", sys.argv[2]).replace("<repo>", sys.argv[2]).replace("<worktree>", sys.argv[2]))' "$S/meta.json" "$WT")
 clean_out=$(bash -c "$CMD" 2>&1); 
 echo "$clean_out" | grep -q -E '^(FAIL|--- FAIL|panic:)|VIOLATION' && CLEAN=fail || CLEAN=pass
+# a demonstration that did not run at all (shell error, nothing compiled) is not a pass
+echo "$clean_out" | grep -q -E '^(ok|PASS)' || CLEAN="norun"
 git checkout -q -- . ; git clean -fdq -- pub streams astool
 git apply "$S/patch.diff" || { echo "RESULT $WT/$V patch-does-not-apply"; exit 1; }
 go build ./... >/dev/null 2>&1 && BUILD=ok || BUILD=fail
